@@ -151,7 +151,20 @@ def sequential(ctx):
             box[key] = 'other:' + type(e).__name__
         return None
 
-    for close_first in (False, True):
+    def fork_once():
+        # the process forks (a worker is started, a subprocess helper runs …); the child leaves at once
+        import gc as _gc
+        import os as _os
+
+        pid_ = _os.fork()
+        if pid_ == 0:
+            _os._exit(0)
+        _os.waitpid(pid_, 0)
+        _gc.collect()
+
+    # what happens in the process between the first thread's store and the second thread's attempt: nothing; the process forks
+    # (from the owning thread / from the main thread); a garbage collection; a third thread that only starts and ends
+    for close_first, between in [(c, b) for c in (False, True) for b in (None, 'fork_by_owner', 'fork_by_main', 'gc', 'idle_thread')]:
         TrajectoryStore.active_in_thread = None
         box: dict = {}
         holder = {}
@@ -163,18 +176,30 @@ def sequential(ctx):
             holder['ts'] = attempt(box, 'first')
             if close_first and holder['ts'] is not None:
                 holder['ts'].close()
+            if between == 'fork_by_owner':
+                fork_once()
             started.set()
             release.wait(10.0)  # stay alive: thread identifiers of finished threads may be reused
 
         t1 = threading.Thread(target=first)
         t1.start()
         started.wait(10.0)
+        if between == 'fork_by_main':
+            fork_once()
+        elif between == 'gc':
+            import gc as _gc
+
+            _gc.collect()
+        elif between == 'idle_thread':
+            t0 = threading.Thread(target=lambda: None)
+            t0.start()
+            t0.join()
         t2 = threading.Thread(target=lambda: attempt(box, 'second'))
         t2.start()
         t2.join()
         release.set()
         t1.join()
-        key = 'after_close' if close_first else 'before_close'
+        key = ('after_close' if close_first else 'before_close') + ('' if between is None else ':' + between)
         out[key] = dict(box)
         ctx.case('sequential:' + key, nontrivial=True, sample={'order': key, 'result': dict(box)})
         if box.get('first') != 'ok' or box.get('second') != 'refused':
